@@ -16,6 +16,9 @@
 //	            maps are reported as fmt-map (fmt prints them key-sorted since go1.12, listed for review)
 //	float       arithmetic / conversion / literal / math.* call of type float32 / float64
 //	unsafe      any use of package unsafe
+//	env         os.Getenv / LookupEnv / Environ / Hostname / Getwd / Getpid / UserHomeDir / Args / TempDir … (process environment)
+//	tz          time.Local, time.LoadLocation, time.Unix* (values in the LOCAL zone), Time.Local / Zone / Location
+//	reflect-map reflect.Value.MapKeys / MapRange (map iteration through reflection)
 //	typed-event call of cosmos-sdk EventManager.EmitTypedEvent(s) / TypedEventToEvent (v0.45.2 builds the attribute
 //	            list by ranging over a map: attribute order is random)
 //
@@ -60,6 +63,11 @@ type Site struct {
 	Expr  string `json:"expr"`
 	Count int    `json:"count"`
 	Auto  string `json:"auto,omitempty"` // non-empty: classified by the tool (no expectation needed)
+	Reach string `json:"reach,omitempty"` // with -reach: reachable | rta-unreachable | unreachable | init
+	// reachable      in the CHA graph and by rapid type analysis
+	// rta-unreachable reachable only through CHA's "every implementation of the interface" edges, not by RTA
+	// unreachable    not even in the CHA over-approximation (sound)
+	// init           package-level declaration or init function (runs at process start, not in block processing)
 }
 
 type Expect struct {
@@ -93,6 +101,8 @@ type Report struct {
 	Uninventoried []Site    `json:"uninventoried"`
 	Unused        []Expect  `json:"unused"`
 	Errors        []string  `json:"errors"`
+	ReachRoots    []string  `json:"reach_roots,omitempty"`
+	ReachStats    map[string]int `json:"reach_stats,omitempty"`
 }
 
 var roots = []string{"x", "adapter", "ibc", "app", "types", "syscontracts"}
@@ -121,6 +131,19 @@ func excluded(rel string) bool {
 
 var timeFuncs = map[string]bool{"Now": true, "Since": true, "Until": true, "After": true, "Sleep": true, "Tick": true,
 	"NewTimer": true, "NewTicker": true, "AfterFunc": true}
+
+// process environment (kind env) — identifiers of package os that read the environment / identity of the process
+var envIdents = map[string]bool{"Getenv": true, "LookupEnv": true, "Environ": true, "ExpandEnv": true, "Hostname": true, "Getwd": true, "Getpid": true,
+	"Getppid": true, "Getuid": true, "Geteuid": true, "Getgid": true, "UserHomeDir": true, "UserCacheDir": true, "UserConfigDir": true, "Executable": true, "Args": true, "TempDir": true}
+
+// local time zone (kind tz): values / functions of package time whose result depends on TZ / the zone database
+var tzFuncs = map[string]bool{"Local": true, "LoadLocation": true, "LoadLocationFromTZData": true, "Unix": true, "UnixMilli": true, "UnixMicro": true}
+
+// methods of time.Time that expose the local zone
+var tzMethods = map[string]bool{"Local": true, "Zone": true, "Location": true}
+
+// reflect-based map iteration (kind reflect-map)
+var reflectMapMethods = map[string]bool{"MapKeys": true, "MapRange": true}
 
 var pkgKind = map[string]string{
 	"math/rand": "rand", "crypto/rand": "rand", "math/rand/v2": "rand",
@@ -193,6 +216,13 @@ func funcName(d *ast.FuncDecl) string {
 		}
 	}
 	return "(" + star + name + ")." + d.Name.Name
+}
+
+func deref(t types.Type) types.Type {
+	if p, ok := t.(*types.Pointer); ok {
+		return p.Elem()
+	}
+	return t
 }
 
 func isFloat(t types.Type) bool {
@@ -455,13 +485,33 @@ func (c *collector) walkFunc(fn string, body ast.Node) {
 		case *ast.SelectStmt:
 			c.add(fn, "select", "select", "")
 		case *ast.SelectorExpr:
+			if sel, ok := c.info.Selections[x]; ok && sel.Obj() != nil && sel.Obj().Pkg() != nil {
+				switch sel.Obj().Pkg().Path() {
+				case "time":
+					if tzMethods[x.Sel.Name] {
+						if n, ok2 := deref(sel.Recv()).(*types.Named); ok2 && n.Obj().Name() == "Time" {
+							c.add(fn, "tz", "time.Time."+x.Sel.Name, "")
+						}
+					}
+				case "reflect":
+					if reflectMapMethods[x.Sel.Name] {
+						c.add(fn, "reflect-map", "reflect.Value."+x.Sel.Name, "")
+					}
+				}
+			}
 			if id, ok := x.X.(*ast.Ident); ok {
 				if pn, ok2 := c.info.Uses[id].(*types.PkgName); ok2 {
 					path := pn.Imported().Path()
 					if path == "time" && timeFuncs[x.Sel.Name] {
 						c.add(fn, "time", "time."+x.Sel.Name, "")
 					}
+					if path == "time" && tzFuncs[x.Sel.Name] {
+						c.add(fn, "tz", "time."+x.Sel.Name, "")
+					}
 					if k, ok3 := pkgKind[path]; ok3 {
+						if path == "os" && envIdents[x.Sel.Name] {
+							k = "env"
+						}
 						c.add(fn, k, path+"."+x.Sel.Name, "")
 					}
 					if path == "math" {
@@ -608,6 +658,7 @@ func main() {
 	out := flag.String("out", "build/nondetsites.json", "site inventory (JSON)")
 	expect := flag.String("expect", "", "expectation file (props/sites-C14.json)")
 	report := flag.String("report", "", "match report (JSON)")
+	reach := flag.Bool("reach", false, "thorough tier: SSA + CHA call graph, mark every site reachable / unreachable from the block-processing roots")
 	flag.Parse()
 
 	abs, err := filepath.Abs(*repo)
@@ -696,6 +747,24 @@ func main() {
 	rep.Sites = len(sites)
 	for _, s := range sites {
 		rep.ByKind[s.Kind]++
+	}
+	if *reach && len(rep.Errors) == 0 {
+		ri := computeReach(pkgs, abs)
+		rep.ReachRoots = ri.Roots
+		rep.ReachStats = map[string]int{"module_functions": ri.Funcs, "callgraph_nodes": ri.Nodes, "roots": len(ri.Roots), "reachable_module_functions": len(ri.Reachable)}
+		for i := range sites {
+			switch {
+			case sites[i].Func == "<pkginit>" || sites[i].Func == "init":
+				sites[i].Reach = "init"
+			case ri.Reachable[sites[i].File+"\x00"+sites[i].Func] && ri.RTA[sites[i].File+"\x00"+sites[i].Func]:
+				sites[i].Reach = "reachable"
+			case ri.Reachable[sites[i].File+"\x00"+sites[i].Func]:
+				sites[i].Reach = "rta-unreachable"
+			default:
+				sites[i].Reach = "unreachable"
+			}
+			rep.ReachStats["sites_"+sites[i].Reach]++
+		}
 	}
 	writeJSON(*out, sites)
 
